@@ -59,97 +59,98 @@ def run(rep, tier):
     prog = ep.endpoints_program()
     rep.bounds['requests'] = f'per endpoint: every path/query/header/auth source has 0..2 values of <= {L} symbolic bytes (headers: all 256 byte values; path/query: ASCII); two endpoints (required + optional decoders, header and cookie auth); Rust identifiers differ from log_as and wire names'
     for ename, e in ENDPOINTS.items():
-        it = ep.make_interp(prog)
-        dec = Decider(rep, it)
-        st = St()
-        spec = {'path': {}, 'query': {}, 'header': {}}
-        params = []
-        for kind, wire, log, ty, mode in e['args']:
-            if kind == 'auth':
-                Lh = len(ty) + 2
-                p = ep.Param(st, ename + '_' + wire.replace('-', ''), Lh, maxn=1, allow_nontext=True)
-                spec['header'][wire] = p
-            elif kind == 'header':
-                p = ep.Param(st, ename + '_' + wire.replace('-', ''), L, allow_nontext=True)
-                spec['header'][wire] = p
-            elif kind == 'path':
-                p = ep.Param(st, ename + '_' + wire, L, maxn=1)
-                st.pc.append(p.n == 1)
-                spec['path'][wire] = p
-            else:
-                p = ep.Param(st, ename + '_' + wire, L)
-                spec['query'][wire] = p
-            params.append(p)
-        endpoint, req, ext, log = ep.build_request(it, st, spec, L)
-        fn = ep.handle_fn(prog, e['struct'])
-        bad_of = [corrupted(kind, ty, mode, p) for (kind, wire, lg, ty, mode), p in zip(e['args'], params)]
-        np_, seen = 0, {'ok': 0, 'err': 0}
-        for s2, rv in it.run(fn, [endpoint, req, ext], st, ep.TENV):
-            np_ += 1
-            rep.states += 1
-            tag = f'{ename}:path{np_}'
-            if isinstance(rv, Unwind):
-                rep.inconc(f'C19 {tag}: unwind {rv.where}')
-                continue
-            if isinstance(rv, Panic):
-                m = dec.decide(tag + ':panic', s2, z3.BoolVal(True))
-                if m is not None:
-                    report(rep, ename, e, params, m, f'panic: {rv.msg}')
-                continue
-            calls = s2.deref(log)
-            is_ok = it.variant_of(rv, 'Ok')
-            errp = it.payload(rv, 'Err')
-            any_bad = z3.Or(*bad_of)
-            conds = [z3.And(is_ok, any_bad), z3.And(z3.Not(is_ok), z3.Not(any_bad))]
-            if errp is not None:
-                err = errp.fields[0]
-                pname = dict(err.fields[4]).get('param')
-                code = err.fields[3].name.split('::')[-1] if err.fields[3] is not None else err.fields[0]
-                if calls:
-                    conds.append(z3.Not(is_ok))                     # handler invoked although an error is returned
-                # the first corrupted argument decides code and param
-                first = []
-                for i, ((kind, wire, lg, ty, mode), b) in enumerate(zip(e['args'], bad_of)):
-                    first.append(z3.And(b, *[z3.Not(x) for x in bad_of[:i]]))
-                for (kind, wire, lg, ty, mode), f in zip(e['args'], first):
-                    if kind == 'auth':
-                        wrong = not (code == 'PermissionDenied')
-                    else:
-                        wrong = not (code == 'InvalidArgument' and isinstance(pname, BStr) and (model_static(pname) == lg))
-                    if wrong:
-                        conds.append(z3.And(z3.Not(is_ok), f))
-            else:
-                if len(calls) != 1:
-                    conds.append(is_ok)
+        with rep.part('endpoint ' + ename):
+            it = ep.make_interp(prog)
+            dec = Decider(rep, it)
+            st = St()
+            spec = {'path': {}, 'query': {}, 'header': {}}
+            params = []
+            for kind, wire, log, ty, mode in e['args']:
+                if kind == 'auth':
+                    Lh = len(ty) + 2
+                    p = ep.Param(st, ename + '_' + wire.replace('-', ''), Lh, maxn=1, allow_nontext=True)
+                    spec['header'][wire] = p
+                elif kind == 'header':
+                    p = ep.Param(st, ename + '_' + wire.replace('-', ''), L, allow_nontext=True)
+                    spec['header'][wire] = p
+                elif kind == 'path':
+                    p = ep.Param(st, ename + '_' + wire, L, maxn=1)
+                    st.pc.append(p.n == 1)
+                    spec['path'][wire] = p
                 else:
-                    # when every argument decodes the handler receives exactly the decoded values (query values arrive already
-                    # decoded from the parsed query map and must not be altered again; path values are percent-decoded once)
-                    for ((kind, wire, lg, ty, mode), p, got) in zip(e['args'], params, calls[0][1]):
+                    p = ep.Param(st, ename + '_' + wire, L)
+                    spec['query'][wire] = p
+                params.append(p)
+            endpoint, req, ext, log = ep.build_request(it, st, spec, L)
+            fn = ep.handle_fn(prog, e['struct'])
+            bad_of = [corrupted(kind, ty, mode, p) for (kind, wire, lg, ty, mode), p in zip(e['args'], params)]
+            np_, seen = 0, {'ok': 0, 'err': 0}
+            for s2, rv in it.run(fn, [endpoint, req, ext], st, ep.TENV):
+                np_ += 1
+                rep.states += 1
+                tag = f'{ename}:path{np_}'
+                if isinstance(rv, Unwind):
+                    rep.inconc(f'C19 {tag}: unwind {rv.where}')
+                    continue
+                if isinstance(rv, Panic):
+                    m = dec.decide(tag + ':panic', s2, z3.BoolVal(True))
+                    if m is not None:
+                        report(rep, ename, e, params, m, f'panic: {rv.msg}')
+                    continue
+                calls = s2.deref(log)
+                is_ok = it.variant_of(rv, 'Ok')
+                errp = it.payload(rv, 'Err')
+                any_bad = z3.Or(*bad_of)
+                conds = [z3.And(is_ok, any_bad), z3.And(z3.Not(is_ok), z3.Not(any_bad))]
+                if errp is not None:
+                    err = errp.fields[0]
+                    pname = dict(err.fields[4]).get('param')
+                    code = err.fields[3].name.split('::')[-1] if err.fields[3] is not None else err.fields[0]
+                    if calls:
+                        conds.append(z3.Not(is_ok))                     # handler invoked although an error is returned
+                    # the first corrupted argument decides code and param
+                    first = []
+                    for i, ((kind, wire, lg, ty, mode), b) in enumerate(zip(e['args'], bad_of)):
+                        first.append(z3.And(b, *[z3.Not(x) for x in bad_of[:i]]))
+                    for (kind, wire, lg, ty, mode), f in zip(e['args'], first):
                         if kind == 'auth':
-                            continue
-                        raw = p.vals[0]
-                        exp_text = ep.percent_decode(raw) if kind == 'path' else raw
-                        if ty == 'i32':
-                            _, exp_val = parse_int_model(exp_text, 32, True)
-                            eq = lambda g: g == exp_val
+                            wrong = not (code == 'PermissionDenied')
                         else:
-                            eq = lambda g: bstr_eq(s2.deref_all(g) if isinstance(g, Ptr) else g, exp_text)
-                        if mode == 'opt':
-                            gp = it.payload(got, 'Some')
-                            c = z3.And(p.n == 1, z3.Or(got.discr != 1, z3.Not(eq(gp.fields[0])) if gp is not None else z3.BoolVal(True)))
-                            c = z3.Or(c, z3.And(p.n == 0, got.discr != 0))
-                        else:
-                            c = z3.Not(eq(got))
-                        conds.append(z3.And(is_ok, c))
-            m = dec.decide(tag + ':error-names-first-undecodable-declared-argument', s2, z3.Or(*conds), values_bytes=L)
-            if m is not None:
-                report(rep, ename, e, params, m, 'outcome differs: code / `param` / handler invocation')
-                continue
-            seen['ok'] += int(it.feasible(s2, is_ok))
-            seen['err'] += int(it.feasible(s2, z3.Not(is_ok)))
-        if not seen['ok'] or not seen['err']:
-            rep.inconc(f'vacuity: C19 {ename} ok={seen["ok"]} err={seen["err"]}')
-        finish_engine(rep, it)
+                            wrong = not (code == 'InvalidArgument' and isinstance(pname, BStr) and (model_static(pname) == lg))
+                        if wrong:
+                            conds.append(z3.And(z3.Not(is_ok), f))
+                else:
+                    if len(calls) != 1:
+                        conds.append(is_ok)
+                    else:
+                        # when every argument decodes the handler receives exactly the decoded values (query values arrive already
+                        # decoded from the parsed query map and must not be altered again; path values are percent-decoded once)
+                        for ((kind, wire, lg, ty, mode), p, got) in zip(e['args'], params, calls[0][1]):
+                            if kind == 'auth':
+                                continue
+                            raw = p.vals[0]
+                            exp_text = ep.percent_decode(raw) if kind == 'path' else raw
+                            if ty == 'i32':
+                                _, exp_val = parse_int_model(exp_text, 32, True)
+                                eq = lambda g: g == exp_val
+                            else:
+                                eq = lambda g: bstr_eq(s2.deref_all(g) if isinstance(g, Ptr) else g, exp_text)
+                            if mode == 'opt':
+                                gp = it.payload(got, 'Some')
+                                c = z3.And(p.n == 1, z3.Or(got.discr != 1, z3.Not(eq(gp.fields[0])) if gp is not None else z3.BoolVal(True)))
+                                c = z3.Or(c, z3.And(p.n == 0, got.discr != 0))
+                            else:
+                                c = z3.Not(eq(got))
+                            conds.append(z3.And(is_ok, c))
+                m = dec.decide(tag + ':error-names-first-undecodable-declared-argument', s2, z3.Or(*conds), values_bytes=L)
+                if m is not None:
+                    report(rep, ename, e, params, m, 'outcome differs: code / `param` / handler invocation')
+                    continue
+                seen['ok'] += int(it.feasible(s2, is_ok))
+                seen['err'] += int(it.feasible(s2, z3.Not(is_ok)))
+            if not seen['ok'] or not seen['err']:
+                rep.inconc(f'vacuity: C19 {ename} ok={seen["ok"]} err={seen["err"]}')
+            finish_engine(rep, it)
     # reachability twins replayed natively
     ops = [{'op': 'endpoint', 'endpoint': 'e1', 'path': {'pathWire': '37'}, 'query': [['queryWire', '61']], 'headers': [['x-foo', '35'], ['authorization', '42656172657220616263']]},
            {'op': 'endpoint', 'endpoint': 'e1', 'path': {'pathWire': '37'}, 'query': [], 'headers': [['x-foo', '35'], ['authorization', '42656172657220616263']]},
